@@ -48,9 +48,24 @@ def main():
         for f in glob.glob(os.path.join(src, "demo", "*.rs")):
             shutil.copy(f, os.path.join(wt, demo_dir))
             demos.append(os.path.splitext(os.path.basename(f))[0])
+        standalone = os.path.exists(os.path.join(src, "demo", "Cargo.toml"))
+        sdst = os.path.join(wt, "SEED3", os.path.basename(src.rstrip("/")))
+        if standalone:
+            # a standalone demo package that path-depends on ../../../fast-tlsh: place it at the same relative position in this worktree
+            shutil.copytree(src, sdst, ignore=shutil.ignore_patterns("target"))
         def run_demo():
             outs = []
             ok = True
+            if standalone:
+                env2 = dict(env, **extra_env)
+                if rustflags: env2["RUSTFLAGS"] = rustflags
+                env2["CARGO_TARGET_DIR"] = "/tmp/ev/target-demo-" + sid
+                script = [f for f in (os.path.join(sdst, "demo.sh"), os.path.join(sdst, "demo", "demo.sh")) if os.path.exists(f)]
+                if script:
+                    rc, out = sh(["sh", script[0]], os.path.dirname(script[0]), env2)
+                else:
+                    rc, out = sh(["cargo", "run", "--offline"] + extra, os.path.join(sdst, "demo"), env2)
+                return rc == 0, [("standalone", rc, out[-400:])]
             for d in demos:
                 cmd = ["cargo", "test", "-p", demo_pkg, "--offline", "--test", d] + (["--features", feats] if feats else []) + extra
                 rc, out = sh(cmd, wt, dict(dict(env, **extra_env), RUSTFLAGS=rustflags) if rustflags else dict(env, **extra_env))
@@ -70,6 +85,8 @@ def main():
         print("demo with patch:", "fails" if not ok_with else "PASSES", "| without:", "passes" if ok_without else "FAILS")
         # checks on the patched tree
         sh(["git", "apply", patch], wt)
+        shutil.rmtree(os.path.join(wt, "SEED3"), ignore_errors=True)
+        shutil.rmtree("/tmp/ev/target-demo-" + sid, ignore_errors=True)
         for d in demos: os.remove(os.path.join(wt, demo_dir, d + ".rs"))
         props = ["C%02d" % i for i in range(1, 19)]
         fired = {}
